@@ -80,7 +80,15 @@ _MAX_ITEMS = 70000
 
 
 class Ev:
+    ignore_calls = ("log.",)     # statements calling these are skipped by run_stmt
+
+    def _mk(self, *a, **kw):
+        e = type(self)(self.repo, *a, **kw)
+        e.hooks = self.hooks
+        return e
+
     def __init__(self, repo, mod, env=None, self_cls=None, depth=0):
+        self.hooks = {}      # canonical callee text -> callable(list of folded args) (oracles for impure callees)
         self.repo = repo
         self.mod = mod
         self.env = dict(env or {})
@@ -112,7 +120,7 @@ class Ev:
                 name = st.targets[0].id
                 if name.startswith("_"):
                     continue
-                val = Ev(self.repo, ci.mod, self_cls=None).ev(st.value)
+                val = self._mk(ci.mod, self_cls=None).ev(st.value)
                 attrs = {}
                 if init is not None:
                     tup = val if isinstance(val, tuple) else (val,)
@@ -121,7 +129,7 @@ class Ev:
                         env[p] = v
                     if len(tup) > len(params):
                         raise AnalysisError("enum %s.%s: too many values" % (ci.name, name))
-                    e2 = Ev(self.repo, ci.mod, env=env)
+                    e2 = self._mk(ci.mod, env=env)
                     for a, expr in amap:
                         try:
                             attrs[a] = e2.ev(expr)
@@ -149,7 +157,7 @@ class Ev:
         r = self.repo.lookup(self.mod, n.id)
         if r is not None:
             if r[0] == "const":
-                return Ev(self.repo, r[2], depth=self.depth + 1).ev(r[1])
+                return self._mk(r[2], depth=self.depth + 1).ev(r[1])
             if r[0] == "class":
                 return ClassRef(r[1])
             if r[0] == "func":
@@ -163,7 +171,7 @@ class Ev:
     def class_attr(self, ci, attr):
         c, v = self.repo.find_attr(ci, attr)
         if v is not None:
-            return Ev(self.repo, c.mod, self_cls=c, depth=self.depth + 1).ev(v)
+            return self._mk(c.mod, self_cls=c, depth=self.depth + 1).ev(v)
         # property with a pure body?
         c, m = self.repo.find_method(ci, attr)
         if m is not None and any(isinstance(d, ast.Name) and d.id == "property"
@@ -190,7 +198,7 @@ class Ev:
                 if r and r[0] == "class":
                     return ClassRef(r[1])
                 if r and r[0] == "const":
-                    return Ev(self.repo, r[2]).ev(r[1])
+                    return self._mk(r[2]).ev(r[1])
                 if r and r[0] == "func":
                     return ("func", r[1], r[2])
             raise Unknown(key)
@@ -313,16 +321,16 @@ class Ev:
 
     def _comp(self, n, gens, env, out, elt):
         if not gens:
-            out.append(Ev(self.repo, self.mod, env, self.self_cls, self.depth).ev(elt))
+            out.append(self._mk(self.mod, env, self.self_cls, self.depth).ev(elt))
             if len(out) > _MAX_ITEMS:
                 raise Unknown("comprehension too large")
             return
         g = gens[0]
-        it = Ev(self.repo, self.mod, env, self.self_cls, self.depth).ev(g.iter)
+        it = self._mk(self.mod, env, self.self_cls, self.depth).ev(g.iter)
         for v in it:
             e2 = dict(env)
             self._bind(g.target, v, e2)
-            sub = Ev(self.repo, self.mod, e2, self.self_cls, self.depth)
+            sub = self._mk(self.mod, e2, self.self_cls, self.depth)
             if all(sub.ev(c) for c in g.ifs):
                 self._comp(n, gens[1:], e2, out, elt)
 
@@ -353,6 +361,8 @@ class Ev:
         if n.keywords and any(k.arg is None for k in n.keywords):
             raise Unknown("**kw")
         fname = ast.unparse(n.func)
+        if fname in self.hooks:
+            return self.hooks[fname]([self.ev(a) for a in n.args])
         args = []
         for a in n.args:
             if isinstance(a, ast.Starred):
@@ -462,7 +472,7 @@ class Ev:
             for k, v in self.env.items():
                 if isinstance(k, str) and k.startswith("self."):
                     env.setdefault(k, v)
-        sub = Ev(self.repo, mod, env, self_cls or self.self_cls, self.depth + 1)
+        sub = self._mk(mod, env, self_cls or self.self_cls, self.depth + 1)
         r = sub.run_block(fd.body)
         if r is _FALL:
             return None
@@ -478,6 +488,8 @@ class Ev:
     def run_stmt(self, st):
         if isinstance(st, ast.Expr):
             if isinstance(st.value, ast.Constant):
+                return _FALL
+            if isinstance(st.value, ast.Call) and ast.unparse(st.value.func).startswith(self.ignore_calls):
                 return _FALL
             self.ev(st.value)
             return _FALL
